@@ -19,8 +19,11 @@ claimed = {
  "C08": ("DESIGN.md §6 C08", "Family 'echo': TLC enumerates the plans inside the property's quantifier (C08Plan); LoadPlan goes through the framework's own decoder; LoadPlan;FreshObj;CopyFrom;CopyTo;FreshObj;CopyFrom replayed in the real code; clauses C08.noerror, nounknown, known_unchanged, coll_shape, redecode."),
  "C09": ("DESIGN.md §6 C09", "Family 'refresh': all pairs (thorough: triples) of struct values per shape: SetObj v1;NewEmpty;CopyTo;SetObj v2;CopyTo;CopyTo replayed in the real code; clauses C09.noerror, nounknown, list.len, list.elems, map.keys, map.vals, scalar.follow, ptr.null_iff_nil, msg.nil_null, idempotent."),
  "C10": ("DESIGN.md §6 C10", "Family 'genflags': runs over flag lists (full-path and Message.field keys), validator / plan-modifier lists (tagged constructors), use_state_for_unknown_by_default, injected fields (root and nested paths) and seven comment patterns (multi-line, indented, CRLF, empty lines) on fields of root, nested, list-element, map-value, embedded and empty messages; the real tfsdk.Schema is compared attribute by attribute with spec/Schema.tla; thorough: full product of the flag key sets."),
+ "C11": ("DESIGN.md §6 C11", "Families 'genaddr' (7 field-addressed options x 11 keys - full paths to singular / list-element / map-value / depth-3 / embedded-below-root occurrences and Message.field keys - on a descriptor whose messages occur at several paths; the real schema of every run is compared with the documented addressing rule of spec/Generator.tla) and 'genexcl' (base and 9 exclusion variants driven with the same vectors SetObj;NewEmpty;CopyTo;SetPrior;CopyFrom and compared line by line with the excluded occurrences masked: C11.excl.rest_same, C11.excl.to_absent; excluded Go fields keep their prior value)."),
  "C12": ("DESIGN.md §6 C12", "Family 'genselect': every non-empty types selection of a 4-message file x sort x {plain, extra message, extra dependency file}; C12.exact on the function set of each run, C12.text_independent: per-function source text hash equal across all runs of a group (trace validator's group memory)."),
+ "C13": ("DESIGN.md §6 C13", "Family 'gensep': 19 shapes that need package qualification (named casts, enums, oneof wrappers, embedded / nested / list / map messages, time, duration) generated into the struct package (base) and into a separate target package (plain default_package_name; short name resolved through import_path_overrides); C13.compiles, C13.qualified_import, C13.package on the run, schema equality, and the same vectors replayed through all three variants compared line by line (C13.same_behaviour)."),
  "C14": ("DESIGN.md §6 C14", "Family 'gendet': a configuration with several entries in every option; the identical request is run repeatedly and with seeded permutations of YAML key / list-entry / +-list order (quick 18, thorough 70 per configuration); clause C14.same_sha on the raw response bytes. The specification states what may vary between runs (log output of Config.dump) and what may not (the response)."),
+ "C15": ("DESIGN.md §6 C15", "Family 'gensort': reversal, rotations, swaps of the fields of a message with two oneof groups, an embed and a list, and all orders of the 4 messages (thorough: more); sort on: alternative renderings of one run must give a byte-identical file (C15.sorted_bytes); sort off: schemas equal (C15.unsorted_schema) and the same vectors replayed through base and permuted variants compared line by line, diagnostics as sets (C15.unsorted_behaviour)."),
  "C16": ("DESIGN.md §6 C16", "Family 'genconfig': one configuration delivered through every single-option channel assignment (CLI / both with contradicting YAML), all-CLI, all-both and mixed assignments (same request paths, generated file hash compared: C16.channel_equiv, C16.cli_wins); failure cases no types / unreadable / malformed YAML (C16.*_fails, *_nofile)."),
  "C18": ("DESIGN.md §6 C18", "Family 'genwhole': a selected type with one unmappable field (time / duration without configured type, non-string map key) at top level, nested, under list / map / embed / oneof / depth 3, next to a healthy type; runs without the type, with it, and with the field excluded; clauses C18.none_for_poisoned, others_intact (function text hashes equal across the group), logged, exclude_restores (schema + CopyTo clauses on the restored type)."),
  "C20": ("DESIGN.md §6 C20", "Same traces as C03; clauses C20.* state null <=> absent per attribute outside list/map elements at every depth, evaluated by TLC on the real post-state."),
